@@ -734,9 +734,12 @@ pub fn run_history(h: &History, checks: &Checks, fs: &SimFs) -> RunOut {
                     d.release_snapshot(s);
                 }
                 if checks.files {
-                    // releasing snapshots does not by itself trigger deletion; only report what
-                    // must hold with readers possibly having pinned files until now
-                    check_files(fs, &st, false, &mut obs, at);
+                    // the reads of the dump may have triggered seek compactions: take a fresh
+                    // state. Releasing snapshots does not by itself trigger deletion, so only
+                    // report what must hold with readers possibly having pinned files until now.
+                    if let Some(st2) = settle(d, &mut stats, &mut obs, at) {
+                        check_files(fs, &st2, false, &mut obs, at);
+                    }
                 }
             }
         }
